@@ -144,6 +144,10 @@ def content_robustness_part(rep, tier):
     for hi in range(0xa0, 0x100, 1 if tier == 'thorough' else 1):
         for lo in (0xa1, 0xc0, 0xfe):
             calls.append(call('make', bytes([hi, lo]), mode='hanzi'))
+    # sequences of multi-mode content are refused, sequences that would need more than 16 symbols overflow - both are ValueErrors
+    calls += [call('make_sequence', ['12', 'ab'], symbol_count=2), call('make_sequence', ['12', 'ab'], version=1), call('make_sequence', ['12', '34'], symbol_count=2),
+              call('make_sequence', 'x' * 400, version=1), call('make_sequence', '7' * 800, version=1, error='H'), call('make_sequence', 'x' * 20, symbol_count=17),
+              call('make_sequence', 'x' * 20, symbol_count=0), call('make_sequence', 'x' * 20), call('make_sequence', 'x' * 20, version='M3')]
     # spellings of the encoding argument (aliases, case) with and without ECI at every length: honoured means the symbol still decodes
     calls += gen.eci_boundary_calls(call, tier == 'quick')
     obs = symobs.observe_many([c for c in calls if c['api'] != 'make_sequence'], props=['C01', 'C02', 'C03'])
